@@ -35,7 +35,13 @@ const (
 	wireEnterFence        = 21
 	wireCleanupOutbox     = 23
 	wireMigCreate         = 30
+	wireMigClaim          = 31
 	wireMigAdvance        = 32
+	wireMigSetFence       = 33
+	wireMigResetFence     = 34
+	wireMigCommit         = 35
+	wireMigAddLearner     = 36
+	wireMigPromote        = 37
 	wireMigClearFence     = 38
 	wireMigAbort          = 39
 	wireMigGC             = 40
@@ -96,8 +102,15 @@ func parseCmd(data []byte) cmdInfo {
 		}
 		if len(f[4]) >= 2 {
 			ci.innerType = f[4][1]
+			if ci.innerType == wireDeleteChannel {
+				// the channel a delta-wrapped delete-channel names
+				if in := parseCmd(f[4]); in.ok {
+					ci.ch, ci.chType = in.ch, in.chType
+				}
+			}
 		}
-	case wireMigCreate, wireMigCreateGuarded, wireMigAdvance, wireMigClearFence, wireMigAbort:
+	case wireMigCreate, wireMigCreateGuarded, wireMigClaim, wireMigAdvance, wireMigSetFence, wireMigResetFence,
+		wireMigCommit, wireMigAddLearner, wireMigPromote, wireMigClearFence, wireMigAbort:
 		var m map[string]any
 		if json.Unmarshal(f[1], &m) != nil {
 			ci.ok = false
@@ -254,8 +267,10 @@ func (w *c13World) rootCause(batch []logEntry, j int, got []byte, hsIdx int, whe
 	if j > 0 && infos[j].ok && (infos[j].typ == wireAddSubscribers || infos[j].typ == wireRemoveSubscribers) &&
 		!batch[j].rejected && bytes.HasPrefix(batch[j].res, []byte("WKSM")) && bytes.HasPrefix(got, []byte("WKSM")) {
 		for i := 0; i < j; i++ {
-			if infos[i].ok && infos[i].typ == wireDeleteChannel && accepted(i) && infos[i].ch == infos[j].ch && infos[i].chType == infos[j].chType &&
-				w.effHS(batch[i]) == w.effHS(batch[j]) {
+			direct := infos[i].typ == wireDeleteChannel && w.effHS(batch[i]) == w.effHS(batch[j])
+			// the same delete-channel replayed from a hash-slot migration delta for that hash slot
+			wrapped := infos[i].typ == wireApplyDelta && infos[i].innerType == wireDeleteChannel && infos[i].deltaHS == w.effHS(batch[j])
+			if infos[i].ok && (direct || wrapped) && accepted(i) && infos[i].ch != "" && infos[i].ch == infos[j].ch && infos[i].chType == infos[j].chType {
 				return "delete-channel-then-subscriber-change-in-one-batch"
 			}
 		}
@@ -271,6 +286,24 @@ func (w *c13World) rootCause(batch []logEntry, j int, got []byte, hsIdx int, whe
 			}
 			if (infos[i].finishesTask() && accepted(i)) || (infos[i].typ == wireMigGC && bytes.HasPrefix(batch[i].res, []byte("WKMG")) && !bytes.Equal(batch[i].res, []byte("WKMG\x01\x00"))) {
 				return "migration-gc-after-task-change-in-same-batch"
+			}
+		}
+	}
+	// 5. a plain create that repeats, byte for byte, a create staged earlier in the same
+	// batch, with an accepted step of that task in between: the repeat is answered from
+	// the batch's own table of staged creates ("ok, identical") although the task is no
+	// longer the one it describes (alone it is answered stale_meta)
+	if j > 1 && infos[j].ok && infos[j].typ == wireMigCreate && infos[j].task != "" && !batch[j].rejected &&
+		string(batch[j].res) == "stale_meta" && string(got) == "ok" {
+		for i := 0; i < j-1; i++ {
+			if !(infos[i].ok && infos[i].typ == wireMigCreate && bytes.Equal(batch[i].data, batch[j].data) && w.effHS(batch[i]) == w.effHS(batch[j]) && accepted(i)) {
+				continue
+			}
+			for k := i + 1; k < j; k++ {
+				if infos[k].ok && infos[k].typ != wireMigCreate && infos[k].typ != wireMigCreateGuarded && infos[k].ch == infos[j].ch && infos[k].task == infos[j].task &&
+					w.effHS(batch[k]) == w.effHS(batch[j]) && accepted(k) {
+					return "migration-create-repeated-after-task-change-in-same-batch"
+				}
 			}
 		}
 	}
